@@ -566,3 +566,171 @@ def run_data_functions(repo, rule='E6l'):
             one('join_data', [left, right, 'a', 'a'], ref_join(left, right, 'a', 'a'), f'join_data(<{lname}>, <{rname}>, "a", "a")')
             one('join_data', [left, right, 'b', 'c'], ref_join(left, right, 'b', 'c'), f'join_data(<{lname}>, <{rname}>, "b", "c")')
     return counts, problems
+
+
+# ------------------------------------------------------------------------------------------------ value_compare
+class CompareInterp(LibInterp):
+    """host comparisons are defined exactly where CPython defines them: concrete numbers / strings / booleans, and opaque datetimes
+    among themselves (by scenario rank); mixing raw date and datetime, or any other opaque value, raises TypeError like the host"""
+
+    def __init__(self, repo, mod, rule='E6l'):
+        super().__init__(repo, mod, rule)
+        self.oracles.pop('value_compare', None)
+        self.oracles['value_normalize_datetime'] = self._normalize
+
+    def _normalize(self, args, node):
+        v = args[0]
+        if isinstance(v, Sym) and v.kind == 'val' and v.args[2] in ('date', 'datetime'):
+            return Sym('val', v.args[0], True, 'ndt')
+        raise RaiseSig('AttributeError', ('not a datetime',), node)
+
+    def _dt_class(self, v):
+        return v.args[2] if isinstance(v, Sym) and v.kind == 'val' and v.args[2] in ('date', 'datetime', 'ndt') else None
+
+    def compare(self, op, a, b, node):
+        ordering = isinstance(op, (ast.Lt, ast.LtE, ast.Gt, ast.GtE))
+        ca, cb = self._dt_class(a), self._dt_class(b)
+        if ordering and (ca or cb):
+            if ca and cb and ca == cb:
+                ra, rb = self.rank[a.args[0]], self.rank[b.args[0]]
+                return {ast.Lt: ra < rb, ast.LtE: ra <= rb, ast.Gt: ra > rb, ast.GtE: ra >= rb}[type(op)]
+            raise RaiseSig('TypeError', (f"'<' not supported between {ca or type(a).__name__} and {cb or type(b).__name__}",), node)
+        if ordering and any(isinstance(x, Sym) or x is None or isinstance(x, (ADict,)) for x in (a, b)):
+            raise RaiseSig('TypeError', ('ordering not supported between these values',), node)
+        if ordering and isinstance(a, (str, bool, int, float)) and isinstance(b, (str, bool, int, float)):
+            if isinstance(a, str) != isinstance(b, str):
+                raise RaiseSig('TypeError', ("'<' not supported between str and number",), node)
+            return {ast.Lt: a < b, ast.LtE: a <= b, ast.Gt: a > b, ast.GtE: a >= b}[type(op)]
+        if ordering and isinstance(a, tuple) and isinstance(b, tuple):
+            # tuples (e.g. sorted(dict.items()) pairs): lexicographic with the same rules
+            for x, y in zip(a, b):
+                if not self._eq(x, y):
+                    return self.compare(op, x, y, node) if isinstance(op, (ast.Lt, ast.Gt)) else self.compare(ast.Lt() if isinstance(op, ast.LtE) else ast.Gt(), x, y, node)
+            return {ast.Lt: len(a) < len(b), ast.LtE: len(a) <= len(b), ast.Gt: len(a) > len(b), ast.GtE: len(a) >= len(b)}[type(op)]
+        return Interp.compare(self, op, a, b, node)
+
+    def _eq(self, a, b):
+        ca, cb = self._dt_class(a), self._dt_class(b)
+        if ca or cb:
+            return bool(ca and cb and ca == cb and self.rank[a.args[0]] == self.rank[b.args[0]])
+        if isinstance(a, Sym) or isinstance(b, Sym):
+            return a is b
+        if isinstance(a, (AList, ADict)) or isinstance(b, (AList, ADict)):
+            return a is b
+        return a == b
+
+    def method_hook(self, base, m, args, e):
+        if isinstance(base, AList) and m == 'sort' and not args and not e.keywords:
+            import functools
+
+            def cmp(x, y):
+                return -1 if self.compare(ast.Lt(), x, y, e) else (1 if self.compare(ast.Gt(), x, y, e) else 0)
+            base.l.sort(key=functools.cmp_to_key(cmp))
+            return None
+        return super().method_hook(base, m, args, e)
+
+    def builtin_hook(self, name, args, e):
+        if name == 'sorted' and args:
+            items = self.iterate(args[0], e)
+            import functools
+
+            def cmp(x, y):
+                return -1 if self.compare(ast.Lt(), x, y, e) else (1 if self.compare(ast.Gt(), x, y, e) else 0)
+            return AList(sorted(items, key=functools.cmp_to_key(cmp)))
+        if name in ('min', 'max') and len(args) == 2 and all(isinstance(a, (int, float)) and not isinstance(a, bool) for a in args):
+            return (min if name == 'min' else max)(*args)
+        return super().builtin_hook(name, args, e)
+
+
+TYPE_ORDER = ['array', 'boolean', 'datetime', 'function', 'number', 'object', 'regex', 'string']
+
+
+def compare_values():
+    """named sample values: (description, abstract value, reference key)"""
+    D1, D2, D2b = Sym('val', 'd1', True, 'datetime'), Sym('val', 'd2', True, 'datetime'), Sym('val', 'd2b', True, 'date')
+    F, G, RX = Sym('val', 'f', True, 'function'), Sym('val', 'g', True, 'function'), Sym('val', 'rx', True, 'regex')
+    rank = {'d1': 1, 'd2': 2, 'd2b': 2, 'f': 0, 'g': 0, 'rx': 0}
+    vals = [('null', None), ('false', False), ('true', True), ('-1', -1), ('1', 1), ('1.0', 1.0), ('2.5', 2.5), ("''", ''), ("'a'", 'a'), ("'b'", 'b'),
+            ('datetime d1', D1), ('datetime d2', D2), ('date equal to d2', D2b), ('function f', F), ('function g', G), ('regex', RX),
+            ('[]', []), ('[1]', [1]), ('[1, 2]', [1, 2]), ('[2]', [2]), ("[1, 'a']", [1, 'a']), ('[null]', [None]), ('[[1]]', [[1]]), ('[true]', [True]),
+            ('{}', {}), ("{a:1}", {'a': 1}), ("{a:2}", {'a': 2}), ("{b:1,a:2} (insertion order b,a)", {'b': 1, 'a': 2}), ("{a:2,b:0}", {'a': 2, 'b': 0}), ("{a:1,c:0}", {'a': 1, 'c': 0}),
+            ("{a:[1]}", {'a': [1]}), ("{a:null}", {'a': None})]
+    return rank, vals
+
+
+def ref_value_compare(a, b, rank):
+    def tname(v):
+        if v is None:
+            return 'null'
+        if isinstance(v, bool):
+            return 'boolean'
+        if isinstance(v, (int, float)):
+            return 'number'
+        if isinstance(v, str):
+            return 'string'
+        if isinstance(v, list):
+            return 'array'
+        if isinstance(v, dict):
+            return 'object'
+        return {'datetime': 'datetime', 'date': 'datetime', 'function': 'function', 'regex': 'regex'}[v.args[2]]
+
+    def sgn(x, y):
+        return (x > y) - (x < y)
+    if a is None or b is None:
+        return 0 if (a is None and b is None) else (-1 if a is None else 1)
+    ta, tb = tname(a), tname(b)
+    if ta != tb:
+        return sgn(ta, tb)
+    if ta in ('boolean', 'number', 'string'):
+        return sgn(a, b)
+    if ta == 'datetime':
+        return sgn(rank[a.args[0]], rank[b.args[0]])
+    if ta == 'array':
+        for x, y in zip(a, b):
+            c = ref_value_compare(x, y, rank)
+            if c:
+                return c
+        return sgn(len(a), len(b))
+    if ta == 'object':
+        ia, ib = sorted(a.items()), sorted(b.items())
+        for (ka, va), (kb, vb) in zip(ia, ib):
+            if ka != kb:
+                return sgn(ka, kb)
+            c = ref_value_compare(va, vb, rank)
+            if c:
+                return c
+        return sgn(len(ia), len(ib))
+    return 0
+
+
+def run_value_compare(repo, rule='E6l'):
+    """-> (n pairs, problems [(kind, message)])"""
+    mod = repo.module('value')
+    func = mod.funcs.get('value_compare')
+    if func is None:
+        raise Unrecognised(rule, 'value_compare not found', mod.rel)
+    it = CompareInterp(repo, mod, rule)
+    rank, vals = compare_values()
+    it.rank = rank
+    problems = []
+    n = 0
+    results = {}
+    for da, a in vals:
+        for db, b in vals:
+            n += 1
+            got = it.run(func, [_abs(a), _abs(b)])
+            want = ref_value_compare(a, b, rank)
+            if got[0] == 'raise':
+                problems.append(('host', f'value_compare({da}, {db}) raises the host exception {got[1]}{got[2]!r}'))
+                continue
+            r = got[1]
+            sg = (r > 0) - (r < 0) if isinstance(r, (int, float)) and not isinstance(r, bool) else None
+            results[(da, db)] = sg
+            if sg != want:
+                problems.append(('order', f'value_compare({da}, {db}) = {r!r}; the total value order (null first, then by type name, natural order within a type, containers element-wise) gives {want}'))
+    # antisymmetry on what was computed (independent of the reference)
+    for (da, db), s in results.items():
+        t = results.get((db, da))
+        if s is not None and t is not None and s != -t:
+            problems.append(('antisymmetry', f'value_compare({da}, {db}) = {s} but value_compare({db}, {da}) = {t}'))
+    return n, problems
